@@ -2,7 +2,7 @@ SPECIFICATION Spec
 CONSTANTS
   Sids <- SidsB
   ModelSessions = {1, 2}
-  Classes <- Classes3
+  Classes <- Classes2
   Cfgs <- CfgsB
   ProbeLens <- Lens1235
   Dev_MaskBit7 = FALSE
